@@ -39,13 +39,30 @@ def snap(algo):
             "n_eval": int(algo.evaluator.n_eval), "n_gen": algo.n_gen}
 
 
-def trace_asktell(c, order_seed=None, history=False):
+def make_schedule(c):
+    """a run-time parameter schedule (documented use of pymoo's Callback): at generation 2 the scale factor and the
+    crossover rate of the DE operators are re-assigned"""
+    from pymoo.core.callback import Callback
+
+    class Schedule(Callback):
+        def notify(self, algorithm):
+            m = getattr(algorithm, "mating", None)
+            if algorithm.n_gen == 2 and m is not None and hasattr(m, "de_mutation"):
+                F = m.de_mutation.F
+                m.de_mutation.F = (0.11, 0.42) if hasattr(F, "__iter__") else 0.37
+                if hasattr(m, "crossover"):
+                    m.crossover.CR = 0.31
+    return Schedule()
+
+
+def trace_asktell(c, order_seed=None, history=False, callback=None):
     """ask / evaluate / tell; with order_seed the offspring are evaluated externally, one by one, in a
     random order, by a separate evaluator"""
     from pymoo.core.evaluator import Evaluator
     from pymoo.core.population import Population
     prob, algo = build(c)
-    algo.setup(prob, termination=("n_gen", c["n_gen"]), seed=c["seed"], verbose=False, save_history=history)
+    kw = {} if callback is None else {"callback": callback}
+    algo.setup(prob, termination=("n_gen", c["n_gen"]), seed=c["seed"], verbose=False, save_history=history, **kw)
     out = []
     orng = np.random.RandomState(order_seed) if order_seed is not None else None
     while algo.has_next():
@@ -70,10 +87,11 @@ def trace_next(c, history=False):
     return out
 
 
-def trace_minimize(c):
+def trace_minimize(c, callback=None):
     from pymoo.optimize import minimize
     prob, algo = build(c)
-    res = minimize(prob, algo, ("n_gen", c["n_gen"]), seed=c["seed"], verbose=False, save_history=True)
+    kw = {} if callback is None else {"callback": callback}
+    res = minimize(prob, algo, ("n_gen", c["n_gen"]), seed=c["seed"], verbose=False, save_history=True, **kw)
     return [snap(h) for h in res.history], res
 
 
@@ -150,7 +168,7 @@ def workload(c, rng):
 
 
 VARIANTS = ["repeat", "fresh-process", "minimize", "external-order", "next-vs-asktell", "fresh-process", "interleaved", "history",
-            "default-termination", "reuse-object"]
+            "default-termination", "reuse-object", "param-schedule"]
 
 
 class Repro:
@@ -180,7 +198,7 @@ class Repro:
         try:
             # (the fresh-process variant must not run the case itself before the unrelated workload: that would
             # initialise every size-keyed cache with this run's own values)
-            base = trace_asktell(c) if v not in ("default-termination", "fresh-process") else None
+            base = trace_asktell(c) if v not in ("default-termination", "fresh-process", "param-schedule") else None
             if v == "default-termination":
                 # first a run driven on the object itself to the end of its default termination, then
                 # the same configuration on a fresh object through minimize()
@@ -188,6 +206,9 @@ class Repro:
                 other = trace_default_termination(c, "minimize")
             elif v == "reuse-object":
                 other = trace_reuse(c)
+            elif v == "param-schedule":
+                base = trace_asktell(c, callback=make_schedule(c))
+                other, _ = trace_minimize(c, callback=make_schedule(c))
             elif v == "repeat":
                 other = trace_asktell(c)
             elif v == "workload":
@@ -253,7 +274,8 @@ class Repro:
                     "fresh-process": "a run in a fresh process differs from the same run after other work",
                     "interleaved": "a run interleaved with another instance differs from the solo run",
                     "default-termination": "a run under the default termination differs after an earlier run in the same process",
-                    "reuse-object": "the second minimize() of one algorithm object differs from a fresh run"}[v]
+                    "reuse-object": "the second minimize() of one algorithm object differs from a fresh run",
+                    "param-schedule": "with a callback re-assigning F and CR at generation 2, minimize() and ask-and-tell differ"}[v]
             return ["%s (%s, DE/%s/%d/%s, F=%r): %s" % (what, rec.cfg["algo"], rec.cfg["sel"], rec.cfg["y"], rec.cfg["cross"],
                                                      rec.cfg["Fcfg"], rec.out["diff"])]
         return []
@@ -298,6 +320,17 @@ class Resume:
             c["user_ops"] = [None, "mutation", "repair", "crowding"][rng.randint(4)] if c["algo"] not in ("ga", "ea-dex") else None
             c["method"] = Resume.METHODS[t % 3]
             c["history"] = bool(rng.randint(3) == 0)
+            if t % 30 == 7 and c["algo"] not in ("ga", "ea-dex", "nsder"):
+                # one long run: hundreds of generations on a small population, checkpointed every 75 generations
+                # (object graphs that grow with the run length)
+                c["n_gen"] = 460
+                c["pop_size"] = min(c["pop_size"], 8)
+                if 1 + 2 * (c["y"] + (1 if "-to-" in c["sel"] else 0)) >= c["pop_size"]:
+                    c["sel"], c["y"] = "rand", 1
+                    c["pop_size"] = max(c["pop_size"], 5)
+                c["every"] = 75
+                c["history"] = False
+                c["n_off"] = None
             yield c
 
     @staticmethod
@@ -318,10 +351,15 @@ class Resume:
             prob, algo = build(c)
             algo.setup(prob, termination=("n_gen", c["n_gen"]), seed=c["seed"], verbose=False, save_history=c["history"])
             base, saves = [], []
+            every = int(c.get("every") or 1)
             while algo.has_next():
                 algo.next()
                 base.append(snap(algo))
-                saves.append((len(base), dump(algo), np.random.get_state()))
+                if len(base) % every == 0:
+                    saves.append((len(base), dump(algo), np.random.get_state()))
+            if every > 1:
+                rec.tags.add("long-run")
+                saves.append((len(base), None, None))       # sentinel (the last entry is never resumed)
             bad = []
             for k, blob, st in saves[:-1]:
                 a2 = load(blob)
